@@ -453,6 +453,39 @@ def setters(facts):
     return out
 
 
+MUTABLE_STATE = (r"^std::thread::local::LocalKey::<T>::(with|try_with|with_borrow|with_borrow_mut|set|get|take|replace)$|"
+                 r"^std::sync::(poison::)?(mutex::)?Mutex::<T>::(lock|try_lock|get_mut)$|^std::sync::(poison::)?(rwlock::)?RwLock::<T>::(write|read|try_write|try_read)$|"
+                 r"^core::cell::RefCell::<T>::(borrow_mut|borrow|replace|replace_with|take|swap|try_borrow_mut|try_borrow)$|^core::cell::Cell::<T>::(set|get|replace|take|swap|update)$|"
+                 r"^core::sync::atomic::Atomic\w+::(store|swap|fetch_\w+|compare_exchange\w*|load)$|^core::cell::(once::)?OnceCell::<T>::(set|get|get_or_init|get_or_try_init|take)$|"
+                 r"^std::sync::(once_lock::)?OnceLock::<T>::(set|get|take|get_mut)$|^once_cell::|^lazy_static::")
+
+
+def process_state(facts, entries, rule, roles=("producer", "consumer")):
+    """What a token operation returns is a function of its arguments (and, for local producers, fresh randomness): no function reachable
+    from the entry points reads or writes state that outlives the call - thread-locals, statics behind Mutex / RwLock / atomics,
+    Cell / RefCell / OnceCell contents - through which one call could influence another (a key, a verified token or a nonce remembered
+    from an earlier call).  OnceLock::get_or_init / LazyLock (write-once, argument-free initialisation) are not in the table."""
+    g = M.call_graph(facts)
+    roots = [e.id for e in entries if e.role in roles]
+    reach = M.reachable_bodies(facts, roots, g)
+    out = []
+    n = 0
+    for bid in sorted(reach):
+        b = facts.bodies[bid]
+        v = M.view(facts, b)
+        for bi, t in v.calls:
+            n += 1
+            td = M.callee_trait_def(t["callee"])
+            nm = M.callee_name(t["callee"])
+            if re.search(MUTABLE_STATE, td) or re.search(MUTABLE_STATE, nm):
+                out.append(Finding(rule, False, bid, "state that outlives the call (%s)" % M.short(td)[-60:],
+                                   "%s uses %s: what this entry point returns may depend on earlier calls (a remembered key, token, nonce ..), not on its arguments alone" % (M.short(bid)[-80:], M.short(td)),
+                                   v.file(), t["ln"]))
+    out.append(Finding(rule, not [f for f in out if not f.ok], "(reachable set)", "no state that outlives a call", "see above", None, None,
+                       "%d functions reachable from the %d %s entry points (%d calls): none touches thread-local, locked, atomic or interior-mutable state" % (len(reach), len(roots), " / ".join(roles), n)))
+    return out
+
+
 def encapsulation(facts, rule, outer, inner):
     """The batteries-included type wraps the generic one so that its own checks cannot be stepped around: the wrapped value is not
     reachable from outside - its field is not public and no public function (inherent, trait implementation such as Deref / AsMut /
